@@ -11,13 +11,15 @@ Env(k, d) == IF k \in DOMAIN IOEnv THEN IOEnv[k] ELSE d
 Tier == Env("VERIF_TIER", "quick")
 Focus == Env("VERIF_FOCUS", "c03")
 Quick == Tier = "quick"
-MaxDepth == IF Focus = "c04" THEN 0 ELSE IF Quick THEN 1 ELSE 2
-EmitDepth == IF Quick THEN 0 ELSE 1
+\* one successful operation from every built archive (longer compositions are covered by the recorded random histories)
+MaxDepth == IF Focus = "c04" THEN 0 ELSE 1
+EmitDepth == 0
 MaxSize == 16
 
 StrA == <<65>>  StrB == <<66, 67>>  StrL == <<76>>  StrM == <<77>>
 
-Sizes == IF Focus = "c04" THEN {0, 1, 4, 6, 9} ELSE IF Quick THEN {0, 4, 8} ELSE {0, 4, 8, 12}
+Sizes == IF Focus = "c04" THEN (IF Quick THEN {0, 1, 4, 6, 9} ELSE {0, 1, 2, 3, 4, 5, 6, 8, 9, 12})
+         ELSE IF Quick THEN {0, 4, 8} ELSE {0, 4, 8, 12}
 Endians == IF Focus = "c04" THEN {"le", "be"} ELSE {"le"}
 DataOf(n) == [i \in 1..n |-> ((37 * i + 11) % 250) + 1]
 
